@@ -100,7 +100,7 @@ def oracle(chk, inp, cls, schema, classes, ci, data, expect=None):
     return r
 
 
-def mutations(rng, data, known_numbers, wire_of):
+def mutations(rng, data, known_numbers, wire_of, packable=()):
     """yield (name, bytes, expectation)"""
     try:
         recs = WS.split(data)
@@ -131,6 +131,17 @@ def mutations(rng, data, known_numbers, wire_of):
                 5: bytes(rng.getrandbits(8) for _ in range(4)), 2: b"\x03abc"}[wt]
         pos = rng.choice(bounds)
         yield ("mismatch", (data[:pos], tag + body, data[pos:]), "isolate")
+    # a packed payload that does not consist of whole elements (fixed width: length not a multiple of
+    # the width; varint: ends inside an element): decoding it into fewer elements would be a mis-decode
+    for num, width in packable:
+        pos = rng.choice(bounds)
+        tag = WS.enc_varint(num << 3 | 2)
+        if width:
+            n = rng.choice([k for k in range(1, 3 * width) if k % width])
+            payload = bytes(rng.getrandbits(8) for _ in range(n))
+        else:
+            payload = WS.enc_varint(rng.getrandbits(20)) + bytes([0x80 | rng.getrandbits(7)])
+        yield ("packed-partial-element", data[:pos] + tag + WS.enc_varint(len(payload)) + payload + data[pos:], "reject")
     # single-byte corruption anywhere; random strings
     for _ in range(6):
         i = rng.randrange(len(data))
@@ -166,7 +177,9 @@ def run(chk, drv):
                 wire_of[f.num] = w
             if not known:
                 continue
-            for name, mdata, expect in mutations(rng, data, known, wire_of):
+            packable = [(f.num, 4 if f.ty in ("float", "fixed32", "sfixed32") else 8 if f.ty in ("double", "fixed64", "sfixed64") else 0)
+                        for f in b.schema[ci].fields if f.repeated and f.ty not in ("string", "bytes", "message")]
+            for name, mdata, expect in mutations(rng, data, known, wire_of, packable):
                 chk.count("mutation_" + name)
                 if name == "mismatch":
                     pre, rec, post = mdata
